@@ -153,6 +153,8 @@ fn fmt_case(cli: &Path, dir: &Path, c: &Value, seed: u64) -> Vec<Value> {
     std::fs::create_dir_all(&tmp).unwrap();
     let reset = json!({"ev":"Reset","case":id,"mode":"fmt","fam":fam,"cmd":cmd,"kind":kind,"input":input,"variant":variant,"opt":opt});
     let base = match input {
+        // dbc: the file is fine, the schema it is validated against has one field too many (schema validation must fail)
+        "flagged" if kind == "dbc" => valid::make_valid(kind, variant, &mut rng),
         "flagged" => valid::make_invalid_but_parseable(kind, &mut rng).ok_or_else(|| s("no flagged file for this kind")),
         _ => valid::make_valid(kind, variant, &mut rng),
     };
@@ -184,7 +186,10 @@ fn fmt_case(cli: &Path, dir: &Path, c: &Value, seed: u64) -> Vec<Value> {
     let out = dir.join(format!("out.{ext}"));
     let o = p(&out);
     let schema = dir.join("schema.yaml");
-    if let Some(y) = valid::schema_yaml(kind, variant) {
+    if let Some(mut y) = valid::schema_yaml(kind, variant) {
+        if input == "flagged" {
+            y.push_str("  - name: one_too_many\n    type_name: UInt32\n");
+        }
         std::fs::write(&schema, y).unwrap();
     }
     let sc = p(&schema);
@@ -571,9 +576,10 @@ fn pipe_case(cli: &Path, dir: &Path, c: &Value, seed: u64) -> Vec<Value> {
     let id = gi(c, "id").to_string();
     let (files, version, compression, explicit) = (gs(c, "files"), gs(c, "version"), gs(c, "compression"), gs(c, "explicit"));
     let (listfile, preserve, skip, threads) = (gb(c, "listfile"), gb(c, "preserve"), gb(c, "skip"), gi(c, "threads"));
+    let chain = c.get("chain").and_then(|x| x.as_bool()).unwrap_or(false);
     let mut rng = Rng::derive(seed, &format!("c20:pipe:{id}"));
     let mut evs = vec![json!({"ev":"Reset","case":id,"mode":"pipe","fam":"mpq","cmd":"pipeline","kind":"mpq","input":"valid","files":files,
-        "version":version,"compression":compression,"listfile":listfile,"threads":threads,"preserve":preserve,"explicit":explicit,"skip":skip})];
+        "version":version,"compression":compression,"listfile":listfile,"threads":threads,"preserve":preserve,"explicit":explicit,"skip":skip,"chain":chain})];
     let ind = dir.join("in");
     std::fs::create_dir_all(&ind).unwrap();
     let n = match files {
@@ -613,9 +619,52 @@ fn pipe_case(cli: &Path, dir: &Path, c: &Value, seed: u64) -> Vec<Value> {
     evs.push(run_event(&id, "mpq", "list", "mpq", "valid", "ok", libval, false, false, 0, &r, &[], &[], &none, false, &view_of_list(&r.stdout), &lv));
     let r = run_cli(cli, dir, &[s("mpq"), s("info"), p(&arch)]);
     evs.push(run_event(&id, "mpq", "info", "mpq", "valid", "ok", libval, false, false, 0, &r, &[], &[], &none, false, &view_of_info(&r.stdout), &[format!("count:{count}")]));
+    // patch archive for chain runs: overrides the first input file, adds a new one (made with the CLI's own `create`)
+    let patch = dir.join("patch.mpq");
+    let mut libfiles = libfiles;
+    if chain {
+        let pd = dir.join("pin");
+        std::fs::create_dir_all(&pd).unwrap();
+        let over = inputs[0].0.clone();
+        std::fs::write(pd.join(&over), gen_content("text", 300 + rng.below(900) as usize, &mut rng)).unwrap();
+        std::fs::write(pd.join("added.bin"), gen_content("random", 100 + rng.below(900) as usize, &mut rng)).unwrap();
+        let pa = vec![s("mpq"), s("create"), p(&patch), s("--add"), p(&pd.join(&over)), s("--add"), p(&pd.join("added.bin")),
+                      s("--version"), s(version), s("--compression"), s(compression)];
+        let r = run_cli(cli, dir, &pa);
+        let pin: Vec<(String, String)> = [over.as_str(), "added.bin"].iter().map(|n| (n.to_string(), tok(&std::fs::read(pd.join(n)).unwrap()))).collect();
+        let pv = lib_view(&patch);
+        let (got, outs) = match &pv {
+            Ok((_, f, _, _)) => (f.clone(), vec![s("ok")]),
+            Err(e) => (Vec::new(), vec![if patch.exists() { s(lib3(e)) } else { s("missing") }]),
+        };
+        evs.push(run_event(&id, "mpq", "create", "mpq", "valid", "ok", "n/a", false, false, 1, &r, &pin, &got, &outs, true, &none, &none));
+        if pv.is_err() {
+            return evs;
+        }
+        // the library's view of the chain: highest priority first
+        let view = guarded(|| -> Result<Vec<(String, String)>, wow_mpq::Error> {
+            let mut ch = wow_mpq::PatchChain::new();
+            ch.add_archive(&arch, 0)?;
+            ch.add_archive(&patch, 100)?;
+            let mut v = Vec::new();
+            for e in ch.list()? {
+                if let Ok(b) = ch.read_file(&e.name) {
+                    v.push((e.name.clone(), tok(&b)));
+                }
+            }
+            Ok(v)
+        });
+        match view {
+            Outcome::Done(Ok(v)) => libfiles = v,
+            _ => return evs,
+        }
+    }
     // extract
     let outd = dir.join("x");
     let mut a: Vec<String> = vec![s("mpq"), s("extract"), p(&arch), s("-o"), p(&outd)];
+    if chain {
+        a.extend([s("--patch"), p(&patch)]);
+    }
     if preserve {
         a.push(s("--preserve-paths"));
     }
@@ -637,11 +686,15 @@ fn pipe_case(cli: &Path, dir: &Path, c: &Value, seed: u64) -> Vec<Value> {
         a.extend(requested.iter().cloned());
     }
     let r = run_cli(cli, dir, &a);
-    let want: Vec<(String, String)> = libfiles
-        .iter()
-        .filter(|(n, _)| explicit == "all" || requested.iter().any(|q| q.eq_ignore_ascii_case(n)))
-        .map(|(n, t)| (on_disk_name(n, preserve), t.clone()))
-        .collect();
+    // whole archive: files appear under the listed names; explicit: under the spelling that was requested
+    let want: Vec<(String, String)> = if explicit == "all" {
+        libfiles.iter().map(|(n, t)| (on_disk_name(n, preserve), t.clone())).collect()
+    } else {
+        requested
+            .iter()
+            .filter_map(|q| libfiles.iter().find(|(n, _)| n.eq_ignore_ascii_case(q)).map(|(_, t)| (on_disk_name(q, preserve), t.clone())))
+            .collect()
+    };
     let mut got = Vec::new();
     dir_files(&outd, Path::new(""), &mut got);
     evs.push(run_event(&id, "mpq", "extract", "mpq", "valid", "ok", libval, missing, skip, threads, &r, &want, &got, &none, false, &none, &none));
